@@ -628,6 +628,9 @@ class StateMachine:
         if state is None and self.__default_state is not None:
             state = self.__default_state
             if self.__state != state:
+                if self.__engaged:
+                    # the machine has stopped executing its regular states
+                    self.done()
                 state.ran = False
                 self.__state = state
 
